@@ -532,4 +532,33 @@ func run(c *fw.Ctx) {
 	}
 	grec(0)
 	r.flush()
+	// well-formed gob messages whose value is a container holding a nil object: everything that later touches the element
+	// (String, Copy, ...) would dereference nil - also the decoder itself when the value stands where a file name belongs
+	c.Family("gob-nil-elements", "gob encodings of Array{nil}, Map{k: nil}, Array{Array{nil}}, ObjectPtr{nil}: as an object and as each of the 5 fields of a v1/v2 bytecode, and nested in the file set")
+	for name, v := range map[string]ugo.Object{"Array{nil}": ugo.Array{nil}, "Map{k:nil}": ugo.Map{"k": nil}, "Array{Array{nil}}": ugo.Array{ugo.Array{nil}}, "Array{1,nil}": ugo.Array{ugo.Int(1), nil}} {
+		if !c.Next() {
+			continue
+		}
+		c.Nontrivial()
+		obj := append([]byte{0xff}, gobBytes(v)...)
+		r.add(tcase{"gobnil|DecodeObject|" + name, decodeObj, obj})
+		for _, ver := range []byte{1, 2} {
+			for field := byte(0); field <= 5; field++ {
+				d := append([]byte{0x00, 0x75, 0x47, 0x4F, 0x00, ver, field}, obj...)
+				r.add(tcase{fmt.Sprintf("gobnil|DecodeBytecodeFrom|v%d field=%d %s", ver, field, name), decodeBC, d})
+			}
+		}
+	}
+	if c.Next() {
+		// a version 2 bytecode whose file set names its file with the gob value Array{nil}
+		in := []byte{0x00, 0x75, 0x47, 0x4f, 0x00, 0x02, 0x00, 0x03, 0x02, 0x88, 0x01, 0x01, 0x02, 0x01, 0x02, 0x01, 0x7c, 0xff, 0x2f, 0x10, 0x00, 0x1a, 0x67, 0x69, 0x74, 0x68, 0x75, 0x62, 0x2e, 0x63, 0x6f, 0x6d,
+			0x2f, 0x6f, 0x7a, 0x61, 0x6e, 0x68, 0x2f, 0x75, 0x67, 0x6f, 0x2e, 0x41, 0x72, 0x72, 0x61, 0x79, 0x7f, 0x02, 0x01, 0x01, 0x05, 0x41, 0x72, 0x72, 0x61, 0x79, 0x01, 0xff, 0x80, 0x00, 0x01, 0x10,
+			0x00, 0x00, 0x06, 0xff, 0x80, 0x03, 0x00, 0x01, 0x00, 0x01, 0x02, 0x01, 0x00, 0x01, 0x00}
+		r.add(tcase{"gobnil|DecodeBytecodeFrom|file set named by gob Array{nil}", decodeBC, in})
+		for i := range in {
+			// and its truncations
+			r.add(tcase{fmt.Sprintf("gobnil|DecodeBytecodeFrom|file set named by gob Array{nil}|trunc@%d", i), decodeBC, in[:i]})
+		}
+	}
+	r.flush()
 }
